@@ -75,6 +75,10 @@ struct Case {
 	callbacks: usize,
 	/// playback rate (1, 2 or 4 source frames per output frame: the arithmetic stays exact)
 	stride: u32,
+	/// slice of the stream (the end may lie past the end of the audio) and start position inside it
+	/// (may lie past the end of the slice or of the audio: nothing to play then)
+	slice: Option<(usize, usize)>,
+	start: usize,
 }
 
 const RATE: u32 = 8000;
@@ -191,7 +195,16 @@ fn run_inner(c: &Case) -> Result<Outcome, Failure> {
 	if c.stride != 1 {
 		settings = settings.playback_rate(c.stride as f64);
 	}
-	let data = StreamingSoundData::from_decoder(dec).with_settings(settings);
+	if c.start != 0 {
+		settings = settings.start_position(kira::sound::PlaybackPosition::Samples(c.start));
+	}
+	let mut data = StreamingSoundData::from_decoder(dec).with_settings(settings);
+	if let Some((a, b)) = c.slice {
+		data = data.slice(kira::sound::Region {
+			start: kira::sound::PlaybackPosition::Samples(a),
+			end: kira::sound::EndPosition::Custom(kira::sound::PlaybackPosition::Samples(b)),
+		});
+	}
 	let mark = streamctl::mark();
 	let played: Result<StreamingSoundHandle<ScriptError>, PlaySoundError<ScriptError>> = match &mut track {
 		None => m.play(data),
@@ -332,6 +345,22 @@ fn run_inner(c: &Case) -> Result<Outcome, Failure> {
 		ensure!(first_error.is_some() || handle.pop_error().is_some(), "first-error-reaches-the-handle", "the decoder failed under a paused track but pop_error() returned nothing; case {c:?}");
 	}
 
+	// (3c) a decoder that was never told to fail reports no error: the sound never asks for audio
+	// past the end of the stream, whatever slice and start position it was given
+	if c.fault == FaultPlan::None {
+		ensure!(errors == 0 && first_error.is_none(), "no-error-without-a-fault", "no fault was scripted, yet the decoder was driven into {errors} error(s) (first popped from the handle: {first_error:?}); case {c:?}");
+	}
+	// (1b) a sound that is left to play to its end with a decoder that keeps ahead does end: once
+	// more output frames have been rendered than it has audio to play it reports Stopped
+	if c.end == End::Natural && c.fault == FaultPlan::None && !c.looping && c.pace == Pace::Ahead && c.hold == Hold::None && mgr.is_some() && !matches!(c.place, Place::PausedSubTrack) {
+		let (a, b) = c.slice.unwrap_or((0, c.frames));
+		let playable = b.min(c.frames).saturating_sub(a).saturating_sub(c.start);
+		let rendered = c.callbacks.saturating_sub(1) * c.chunk * c.stride as usize;
+		if rendered > playable + 4 * c.chunk * c.stride as usize + 16 {
+			ensure!(stopped_at.is_some(), "sound-ends-after-its-last-frame", "{playable} frames to play, {rendered} source frames' worth of callbacks rendered, and the sound still reports {:?}; case {c:?}", handle.state());
+		}
+	}
+
 	// (4) a slow decoder causes gaps, never repeated / reordered / foreign frames
 	if c.fault == FaultPlan::None && !c.looping {
 		let mut prev: Option<u32> = None;
@@ -448,6 +477,8 @@ fn decode(src: &mut Src, ctx: &mut Ctx) -> Case {
 			chunk: 16,
 			callbacks: frames / 16 + 4,
 			stride: 1,
+			slice: None,
+			start: 0,
 		};
 	}
 	let long = src.chance(1, 3);
@@ -500,12 +531,34 @@ fn decode(src: &mut Src, ctx: &mut Ctx) -> Case {
 		chunk,
 		callbacks,
 		stride: 1,
+		slice: None,
+		start: 0,
 	}
 	.with_hold(src)
 	.with_stride(src)
+	.with_slice(src)
 }
 
 impl Case {
+	/// (drawn after everything else, so that older tapes decode as before)
+	fn with_slice(mut self, src: &mut Src) -> Self {
+		if src.chance(1, 5) {
+			let a = src.usize_in(0, self.frames - 1);
+			let b = match src.weighted(&[2, 1, 1]) {
+				0 => src.usize_in(a + 1, self.frames),
+				1 => self.frames + src.usize_in(0, 300),
+				_ => self.frames,
+			};
+			self.slice = Some((a, b));
+			// inside the slice, at its end, past the end of the audio but inside an over-long slice
+			self.start = match src.weighted(&[3, 1, 1]) {
+				0 => 0,
+				1 => src.usize_in(0, b - a),
+				_ => (self.frames - a) + src.usize_in(0, (b - a).saturating_sub(self.frames - a)),
+			};
+		}
+		self
+	}
 	/// (drawn last, so that older tapes decode as before)
 	fn with_stride(mut self, src: &mut Src) -> Self {
 		self.stride = [1u32, 2, 4][src.weighted(&[3, 1, 1])];
@@ -525,7 +578,7 @@ impl Property for C10 {
 		"fault_enumeration"
 	}
 	fn rule(&self) -> &'static str {
-		"each case plays one streaming sound over a scripted decoder (index-coded frames, packet sizes 1..1152, seek granularity 1..64) through the real manager with a real decoding thread whose steps are scheduled through hook H2, under a fault plan (k-th decode() or seek() call fails once or forever), a scenario (main track, sub-track, sub-track paused beforehand, sub-track of a spatial track whose listener has been dropped; the sound itself playing, paused through its handle before its first callback, or waiting for a start time ten seconds away; natural end, stop() before callback j, refused by a full track, track handle dropped, manager dropped, left playing) and a decoder pace (ahead, n steps per callback, stalled after m steps). Oracles: a stop() with an instant tween reaches Stopped within two processed callbacks; the decoder object is released (its Drop is observed) within 4 s of the sound finishing / being stopped / failing / being refused or discarded; the decode loop runs at most 2w+50 times in an idle window of w ms; after a decoder error the sound is Stopped, unloaded one callback later, silent from then on, and pop_error() yields the first error; without faults the audible frames (at playback rate 1, 2 or 4) are a strictly increasing subsequence of the source, consecutive ones one playback step apart, with at most one extra frame skipped per gap of silence. Enumeration: every stream length 1..24 x packet size 1..4 x every fault position (decode call k, first / later seek, once / forever) on the main track and a sub-track, with the sound playing, paused or waiting for its start time. Non-trivial = a fault after at least one good packet, a discard scenario, or a starving decoder; distinct = distinct decoded choices."
+		"each case plays one streaming sound over a scripted decoder (index-coded frames, packet sizes 1..1152, seek granularity 1..64) through the real manager with a real decoding thread whose steps are scheduled through hook H2, under a fault plan (k-th decode() or seek() call fails once or forever), a scenario (main track, sub-track, sub-track paused beforehand, sub-track of a spatial track whose listener has been dropped; the sound itself playing, paused through its handle before its first callback, or waiting for a start time ten seconds away; natural end, stop() before callback j, refused by a full track, track handle dropped, manager dropped, left playing) and a decoder pace (ahead, n steps per callback, stalled after m steps). Oracles: a stop() with an instant tween reaches Stopped within two processed callbacks; the decoder object is released (its Drop is observed) within 4 s of the sound finishing / being stopped / failing / being refused or discarded; the decode loop runs at most 2w+50 times in an idle window of w ms; after a decoder error the sound is Stopped, unloaded one callback later, silent from then on, and pop_error() yields the first error; a fifth of the streams are sliced (the slice may reach past the end of the audio) and started anywhere up to the nominal end of the slice; without faults no decoder error is ever reported, a sound left to play with a decoder that keeps ahead reports Stopped once its audio is used up, and the audible frames (at playback rate 1, 2 or 4) are a strictly increasing subsequence of the source, consecutive ones one playback step apart, with at most one extra frame skipped per gap of silence. Enumeration: every stream length 1..24 x packet size 1..4 x every fault position (decode call k, first / later seek, once / forever) on the main track and a sub-track, with the sound playing, paused or waiting for its start time. Non-trivial = a fault after at least one good packet, a discard scenario, or a starving decoder; distinct = distinct decoded choices."
 	}
 	fn assumptions(&self) -> Vec<String> {
 		vec![
